@@ -10,7 +10,7 @@ fn runs_for(target: &str) -> u64 {
     "decode" => 3_000_000,
     "json" => 1_500_000,
     "codec" => 1_500_000,
-    "rope_prog" => 600_000,
+    "rope_prog" => 300_000,
     "tree_prog" => 400_000,
     "sched_prog" => 120_000,
     "tree_c02" | "tree_c03" | "tree_c04" | "tree_c11" => 400_000,
